@@ -37,6 +37,7 @@ import (
 
 var run *common.Run
 var knownSeen int
+var seekKnownSeen int
 
 const (
 	mtDockerManifest = "application/vnd.docker.distribution.manifest.v2+json"
@@ -958,8 +959,9 @@ type SeekOp struct {
 }
 
 type SeekCase struct {
-	Prof    fr.Profile // capability profile of the registry
-	Via     int        // 0 = Repository.Fetch, 1 = blob FetchReference
+	Prof    fr.Profile     // capability profile of the registry
+	Via     int            // 0 = Repository.Fetch, 1 = blob FetchReference
+	Cor     *fr.Corruption // K = index among the Range requests of the script whose answer is corrupted
 	Content []byte
 	Modes   []fr.BodyMode // behaviour of the i-th blob body (cycled)
 	Ops     []SeekOp
@@ -968,7 +970,19 @@ type SeekCase struct {
 func (s *SeekCase) Line() string {
 	p := s.Prof
 	w := []string{"S", common.Hex(string(s.Content)), bit(p.DigHdr) + bit(p.Range) + bit(p.CLen) + bit(p.Mount) + bit(p.Referrers),
-		strconv.Itoa(s.Via), strconv.Itoa(len(s.Modes))}
+		strconv.Itoa(s.Via)}
+	if s.Cor == nil {
+		w = append(w, "-")
+	} else {
+		w = append(w, strconv.Itoa(s.Cor.K), s.Cor.Field)
+		switch s.Cor.Field {
+		case "dig-other":
+			w = append(w, common.Hex(s.Cor.Arg))
+		case "status":
+			w = append(w, s.Cor.Arg)
+		}
+	}
+	w = append(w, strconv.Itoa(len(s.Modes)))
 	for _, m := range s.Modes {
 		w = append(w, strconv.Itoa(m.Chunk), bit(m.EOFWithData))
 	}
@@ -995,8 +1009,32 @@ func ParseSeek(line string) (*SeekCase, error) {
 	s := &SeekCase{Content: []byte(common.UnHex(t[1])),
 		Prof: fr.Profile{DigHdr: pb[0] == '1', Range: pb[1] == '1', CLen: pb[2] == '1', Mount: pb[3] == '1', Referrers: pb[4] == '1'}}
 	s.Via, _ = strconv.Atoi(t[3])
-	nm, _ := strconv.Atoi(t[4])
-	i := 5
+	i := 4
+	if t[i] == "-" {
+		i++
+	} else {
+		if i+1 >= len(t) {
+			return nil, errors.New("short")
+		}
+		k, _ := strconv.Atoi(t[i])
+		s.Cor = &fr.Corruption{K: k, Field: t[i+1]}
+		i += 2
+		if s.Cor.Field == "dig-other" || s.Cor.Field == "status" {
+			if i >= len(t) {
+				return nil, errors.New("short")
+			}
+			s.Cor.Arg = t[i]
+			if s.Cor.Field == "dig-other" {
+				s.Cor.Arg = common.UnHex(t[i])
+			}
+			i++
+		}
+	}
+	if i >= len(t) {
+		return nil, errors.New("short")
+	}
+	nm, _ := strconv.Atoi(t[i])
+	i++
 	for ; nm > 0; nm-- {
 		if i+1 >= len(t) {
 			return nil, errors.New("short")
@@ -1070,6 +1108,10 @@ func execSeek(id string, s *SeekCase) {
 	}
 	if err != nil {
 		panic(err)
+	}
+	if s.Cor != nil {
+		// from here on every exchange is a Range request of the script
+		g.Corrupt = &fr.Corruption{K: g.N + s.Cor.K, Field: s.Cor.Field, Arg: s.Cor.Arg}
 	}
 	cell := fmt.Sprintf("seek:matrix:%s:via%d", strings.Fields(line)[2], s.Via)
 	run.Count(cell)
@@ -1145,15 +1187,48 @@ func execSeek(id string, s *SeekCase) {
 			want := o.N
 			switch o.W {
 			case io.SeekCurrent:
-				want += pos
+				want += pos // int64 arithmetic, as any io.Seeker
 			case io.SeekEnd:
 				want += size
 			}
+			mayReconnect = want >= 0 && !closed && want != pos && want < size
+			// was the answer to this Seek's Range request corrupted, and in a way that
+			// contradicts the request (status other than 206, a Content-Length that is not
+			// the length of the range, a digest header naming other content / unparsable)?
+			mustFailSeek, corruptedHere := false, false
+			for k := first; k < len(g.Log); k++ {
+				if ex := g.Log[k]; ex.Hit {
+					corruptedHere = true
+					run.Count("seek:corrupt:" + s.Cor.Field)
+					switch s.Cor.Field {
+					case "status":
+						mustFailSeek = true
+					case "len-inc":
+						mustFailSeek = ex.R.CLen != nil
+					case "dig-other":
+						mustFailSeek = ex.R.Dig != nil && *ex.R.Dig != d.DG
+					case "dig-garbage":
+						mustFailSeek = true
+					}
+				}
+			}
 			if err != nil {
 				out = "err"
-				if want >= 0 && !closed {
+				if want >= 0 && !closed && !(corruptedHere && mustFailSeek) {
 					fail("seek", fmt.Sprintf("Seek to %d failed: %v", want, err))
 				}
+			} else if mustFailSeek {
+				out = "pos:" + strconv.FormatInt(p, 10)
+				sig := "seek-corruption-accepted"
+				if strings.HasPrefix(s.Cor.Field, "dig-") {
+					// known: the readSeekCloser has no idea of the digest it reads, the header of a 206 is not looked at
+					sig = "seek-206-digest-unverified"
+					seekKnownSeen++
+				}
+				if sig != "seek-206-digest-unverified" || seekKnownSeen <= 25 {
+					fail(sig, fmt.Sprintf("the 206 was corrupted in %s (%s), Seek succeeded", s.Cor.Field, fr.ShowResp(g.Log[len(g.Log)-1].R)))
+				}
+				pos = want
 			} else {
 				out = "pos:" + strconv.FormatInt(p, 10)
 				if closed || want < 0 {
@@ -1164,7 +1239,6 @@ func execSeek(id string, s *SeekCase) {
 					if want == pos {
 						run.Count("seek:position-unchanged")
 					}
-					mayReconnect = want != pos && want < size
 					pos = want
 				}
 			}
@@ -1990,8 +2064,30 @@ func genSeek(r *common.Rand) *SeekCase {
 			}
 		}
 	}
+	if r.Chance(1, 12) { // offsets at the edge of int64
+		big := []int64{1<<63 - 1, -(1 << 63), 1<<63 - 1 - size, 1 << 62}
+		seek(common.Pick(r, big), r.Intn(3))
+		read(3)
+	}
 	if len(s.Ops) > 60 {
 		s.Ops = s.Ops[:60]
+	}
+	// one field of the answer to one of the script's Range requests corrupted
+	if s.Prof.Range && r.Chance(1, 3) {
+		nseek := 0
+		for _, o := range s.Ops {
+			if o.K == "s" {
+				nseek++
+			}
+		}
+		f := common.Pick(r, []string{"status", "status", "status", "len-inc", "len-inc", "len-drop", "dig-other", "dig-garbage", "dig-drop", "type-other"})
+		s.Cor = &fr.Corruption{K: r.Intn(nseek + 1), Field: f}
+		switch f {
+		case "status":
+			s.Cor.Arg = common.Pick(r, []string{"200", "500", "204", "416", "404"})
+		case "dig-other":
+			s.Cor.Arg = sha([]byte("other"))
+		}
 	}
 	return s
 }
